@@ -12,7 +12,7 @@ package directives
 //
 //@ func (Range).Location
 //@   ensures result.Line >= 1 && result.Col >= 1
-//@   loop 1 invariant loc.Line >= 1 && loc.Col >= 1
+//@   loop 1 invariant loc.Line >= 1 && loc.Col >= 1 && loc.Line <= $pos + 1 && loc.Col <= $pos + 1 && 0 <= $pos && $pos <= len(r.Text)
 //
 //@ func (Range).firstOfLine
 //@   requires 0 <= pos && pos <= len(r.Text)
@@ -27,7 +27,7 @@ package directives
 //@   loop 1 decreases len(r.Text) - pos
 //
 //@ func (Range).Context
-//@   requires inText(r)
+//@   requires inText(r) && previous <= 1000000
 //@   ensures true
 //@   loop 1 invariant 0 <= start && start <= r.Start && 0 <= i
 //@   loop 1 decreases previous + 1 - i
